@@ -50,3 +50,6 @@ def run(v, tier, seed, replay):
                                                    "a collector cycle *inside* the finishing call (between its queue pushes) is exercised on the implementation only (cycleAtPush scenarios)"])
     if not v.violations:
         check_last_poll(v, cases, impl)
+    if not replay and not v.violations:
+        from props import c09
+        c09.run_scenarios(v, {"recovery-adapter-%d" % c: c09.sc_recovery_adapter(c) for c in (0, 1)}, with_model=True, jobs=2)
